@@ -157,6 +157,8 @@ size_t apduCmdDec(apdu_cmd_t* cmd, const octet apdu[], size_t count)
 				return SIZE_MAX;
 			cdf_len_len = 3;
 			cdf_len = apdu[1], cdf_len *= 256, cdf_len += apdu[2];
+			if (cdf_len == 0)
+				return SIZE_MAX;
 		}
 		apdu += cdf_len_len, count -= cdf_len_len;
 	}
